@@ -221,4 +221,33 @@ PROPS["C04"] = {
     "class_of": lambda c, r: "%s|%s|%s|%s" % (c["in"]["tag"], c["in"]["inbound"], c["in"]["level"], json.dumps(r.get("model"), sort_keys=True)),
 }
 
+
+def _c09_agree(model, impl):
+    if impl.get("crashed") or impl.get("close_err"):
+        return False
+    mw = [w["outcome"] for w in model["waiters"]]
+    iw = [w["outcome"] for w in impl["waiters"]]
+    return mw == iw and model["pending"] == impl["pending"] and impl.get("unknown_pending", 0) == 0
+
+
+PROPS["C09"] = {
+    "harness": {"kind": "overlay", "pkg": "pkg/evmclient", "pkgname": "evmclient",
+                "files": ["evmclient/stub_test.go", "evmclient/c09_test.go"], "test": "TestVerifC09", "race": True},
+    "agree": _c09_agree,
+    "level_text": "Theorems over arbitrary interleavings of the atomic steps (submission, watch registration, per-element batch replies for any snapshot, shutdown, drain, client observation): an invariant (a waiter listed in a row is allocated, unanswered and belongs to that row only; delivered waiter ids are duplicate-free) holds in every reachable state, hence no waiter ever has two outcomes and the monitor never sends on a closed channel (no crash); a receipt goes only to waiters of that very hash; 'cancelled' only for a waiter whose nonce is below the confirmed nonce of the snapshot that found no receipt for its hash; 'closed' only after shutdown began; a reply resolves its whole row in that step; after the drain nobody is left waiting and new waiters are refused; the pending list is a subset of what was submitted and resolved transactions leave it once observed. Tied to the real txmonitor + EvmClient with the receipt batch call under a gate (watch/round/close forced in all orders incl. reply in flight during Close and watch during an in-flight reply), over both transports: function mock and a real in-process go-ethereum JSON-RPC server where a missing receipt is JSON null; the harness logs the realised atomic steps and the model replays them.",
+    "level_note": "Trusted: Lean kernel; harness (trace validation); the 500 ms ticker and the 10 s Close timeout are real time; liveness is proved as 'a reply resolves its row' / 'the drain resolves everybody', not under the Go scheduler. A case that kills the test process is recognised by its marker line.",
+    "nontrivial_rule": "distinct (transport, realised step list) pairs; non-trivial = at least one reply or drain reaching a registered waiter",
+    "class_of": lambda c, r: "%s|%s" % (c["in"]["transport"], json.dumps(c["in"]["steps"])),
+    "assumptions": ["watchTx / notify / drain / getOlderTxns are atomic (txmonitor.mtx)", "the chain node's answer for a hash is what the reply step carries"],
+}
+
+PROPS["C20"] = {
+    "harness": {"kind": "overlay", "pkg": "pkg/p2p/libp2p", "pkgname": "libp2p",
+                "files": ["libp2p/c17_test.go", "libp2p/c20_test.go"], "test": "TestVerifC20"},
+    "level_text": "Theorem over all interleavings of the two nodes' steps (asynchronous reliable channel; initiator: write final message, return from Connect, open stream; responder: read+verify final message, register, clear the in-flight marker; responder's stream wrapper: look the peer up, wait for an in-flight handshake of that peer, look again): an invariant (marker cleared implies peer registered) gives that a stream opened after a successful connect is never refused as coming from an unknown peer, however late the responder registers, and a waiting stream is accepted once the responder finished; the wrapper that does not wait (the pinned tree) is refuted by a kernel-evaluated 4-step schedule. Tied to two real services on loopback: the responder's KeySigner.GetAddress (called between reading the final message and registering) is a gate held for chosen delays while the initiator opens 1-3 streams right after Connect returned; plus ungated runs with natural relative speeds and several role pairs.",
+    "level_note": "Trusted: Lean kernel; harness; real sockets, libp2p stream negotiation and the Go scheduler are sampled, not modelled (partial): the model's steps are the protocol-level events only. Honest initiator (its final message verifies) is the scope of the statement.",
+    "nontrivial_rule": "distinct (tag, delay, streams, role pair) cells",
+    "class_of": lambda c, r: json.dumps(c["in"], sort_keys=True),
+}
+
 NOT_CLAIMED = {}
